@@ -15,6 +15,7 @@ for c in $(git -C /repo log --format=%h --reverse --cherry-pick --right-only --n
     *) echo "SKIP (not a fix: commit) $c $msg" ;;
   esac
 done
+git -C /verif checkout -- evidence/ 2>/dev/null || true
 echo "== verif merge ws-$n"
 if ! git -C /verif merge --no-edit ws-$n; then
   # evidence files of other properties rewritten by the worker: keep ours
